@@ -224,10 +224,12 @@ def treeLine (C : NewickCodec) (id : Nat) (t : T) : Txt :=
 def stepState (s : WState) (t : T) : WState :=
   { addTips t.tipNames s with slice := sortStr (addTips t.tipNames s).slice }
 
-/-- the tree that is written: with `translate`, a clone renamed through the current map; the error of
-    `Rename` is ignored by the Go code (the clone is then written unrenamed) -/
+/-- the tree that is written: with `translate`, a clone renamed through the current map.  The error of
+    `Rename` is ignored by the Go code: when `NewNodeIndex` fails (two nodes with the same name) nothing
+    has been renamed yet and the clone is written as it is; a failure of the final `UpdateTipIndex`
+    would come after the renaming and leaves the clone renamed. -/
 def writtenTree (translate : Bool) (s : WState) (t : T) : T :=
-  if translate then (match renameChecked s.map t with | some t' => t' | none => t) else t
+  if translate then (if hasDup ((allNames t).filter (· != "")) then t else renameT s.map t) else t
 
 /-- One iteration of the `for t := range tchan` loop of WriteNexus: returns the new state and the
     "  TREE tree<id> = <newick>\n" line. -/
